@@ -1,13 +1,465 @@
-"""C31 -- AMP matches answers to questions and fails pending calls on disconnect: bounded stand-in (contracts/parts/C31_bounded.py)."""
-from contracts._parts import bounded, EXPLORATION_NOTE
+"""C31 -- AMP matches answers to questions and fails pending calls on disconnect.
 
-CONTRACTS = []
+Deductive, on BoxDispatcher with `_outstandingRequests` as an *arbitrary* map (an SMT array from the number whose
+`%x` spelling is the tag to the reference of the pending Deferred; 0 = no entry) and pending Deferreds as abstract
+references whose callback / errback / addErrback are recorded call-outs:
+
+  _sendBoxCommand   a fresh tag (never one with a pending entry: invariant "no entry above _counter"), the box gets
+                    _command and _ask and is sent exactly once, exactly one new entry, every other entry untouched, the
+                    Deferred returned is new and unfired; after failAllOutgoing: nothing is sent, the Deferred returned
+                    has already failed with the loss reason;
+  _answerReceived / _errorReceived   exactly the Deferred stored under the box's tag is fired, exactly once, with this
+                    box / with the error the box describes, after its entry -- and no other -- has been removed (so a
+                    callRemote made from the callback sees a consistent map);
+  failAllOutgoing   every pending Deferred gets the reason exactly once (inductive loop over an arbitrary number of
+                    entries), and at each of those call-outs the dispatcher already refuses new calls
+                    (_failAllReason set) -- the re-entrancy condition behind "calls made after the connection is
+                    lost fail immediately";
+  ampBoxReceived    _answer before _error before _command, NoEmptyBoxes otherwise.
+Bounded (contracts/parts/C31_bounded.py): two real AMP peers, schedules, cuts at every byte.
+"""
+import z3
+
+from pyvc.api import *
+from pyvc import core, models
+from pyvc.core import SRef
+from contracts._parts import bounded
+from twisted.internet import defer
+from twisted.internet.error import ConnectionDone
+from twisted.protocols import amp
+from twisted.python.failure import Failure
+
+M = "twisted.protocols.amp"
+INT = z3.IntSort()
+
+
+def HEX(t):
+    return models.hexenc()(t)
+
+
+class TagMap(models.SDict):
+    """dict {tag: Deferred} whose tags are `%x` spellings of numbers.  View 1 (keyed access): an array from the number
+    to a Deferred reference (0: absent).  View 2 (iteration): items() is an arbitrary list of entry references."""
+
+    def __init__(self, name, entries=None):
+        self.arr = z3.Array(name, INT, INT)
+        self.arr0 = self.arr
+        self.entries = entries
+        self.stored = {}  # reference term -> the real object the code stored
+
+    def _index(self, tag):
+        t = z3.simplify(core.seq_term(tag, "bytes"))
+        if z3.is_app(t) and t.decl().eq(models.hexenc()) and t.num_args() == 1:
+            return t.arg(0)
+        raise Unsupported("lookup by a tag that is not the %x spelling of a number")
+
+    def _interp(self):
+        return ctx().ghost["$interp"]
+
+    def has(self, tag):
+        return core.mk_bool(self.arr[self._index(tag)] != 0)
+
+    def get_item(self, tag):
+        k = self._index(tag)
+        if self._interp().truth(core.mk_bool(self.arr[k] != 0)):
+            return self._ref(self.arr[k])
+        raise KeyError(tag)
+
+    def _ref(self, term):
+        for r, obj in self.stored.items():
+            if z3.simplify(r == term).eq(z3.BoolVal(True)) if hasattr(z3.simplify(r == term), "eq") else False:
+                return obj
+        return SRef(z3.simplify(term), "Deferred")
+
+    def set(self, tag, v):
+        k = self._index(tag)
+        c = ctx()
+        rid = z3.Int(c.fresh_name("newref"))
+        n = z3.Int(c.fresh_name("q"))
+        c.assume(rid > 0)
+        c.assume(z3.ForAll([n], self.arr[n] != rid))  # a new object is none of the objects already stored
+        c.emit("map.store", None, (k, self.arr[k] != 0, v))
+        self.stored[rid] = v
+        self.arr = z3.Store(self.arr, k, rid)
+
+    def pop(self, tag, *default):
+        k = self._index(tag)
+        if self._interp().truth(core.mk_bool(self.arr[k] != 0)):
+            ref = self._ref(self.arr[k])
+            self.arr = z3.Store(self.arr, k, 0)
+            return ref
+        if default:
+            return default[0]
+        raise KeyError(tag)
+
+    def delete(self, tag):
+        self.pop(tag)
+
+    __delitem__ = delete
+
+    def items(self):
+        if self.entries is None:
+            raise Unsupported("iteration over the outstanding requests in a keyed-access contract")
+        return self.entries
+
+
+def removed_only(S, k):
+    """the map now is the map before without entry k (every other entry untouched)"""
+    m = S.ghost["map"]
+    n = z3.Int("c31!n")
+    return core.mk_bool(z3.ForAll([n], m.arr[n] == z3.If(n == k, 0, m.arr0[n])))
+
+
+def deferred_event(name):
+    def handler(I, ref, *args, **kw):
+        c = ctx()
+        m = c.ghost.get("map")
+        snap = {"arr": m.arr} if m is not None else {}
+        c.emit("Deferred." + name, ref, args, kw, snap)
+        return ref if name.startswith("add") else None
+    return handler
+
+
+DEFERRED_CALLS = {"Deferred.callback": deferred_event("callback"), "Deferred.errback": deferred_event("errback"),
+                  "Deferred.addErrback": deferred_event("addErrback"), "Deferred.addCallback": deferred_event("addCallback")}
+
+
+def is_deferred(o):
+    return isinstance(o, defer.Deferred) or (isinstance(o, core.SObj) and o._cls is defer.Deferred)
+
+
+def fld(o, name):
+    """field of an object the code created (a real object, or its symbolic-mode stand-in)"""
+    if isinstance(o, core.SObj):
+        return o._fields[name] if name in o._fields else getattr(o._cls, name)
+    return getattr(o, name)
+
+
+def ev(S, name):
+    return [e for e in S.trace if e.name == name]
+
+
+class _Dispatcher(Contract):
+    prop = "C31"
+    module = M
+    differential = False
+    trusted = ["`%x` spellings of distinct non-negative numbers are distinct (tags are looked up by the number they spell)",
+               "dict semantics of _outstandingRequests: an array with 0 for 'no entry'; a newly created Deferred is none "
+               "of the objects already stored",
+               "pending Deferreds are abstract references: callback / errback / addErrback are recorded call-outs (what "
+               "a Deferred then does is C01 / C03)"]
+
+    def dispatcher(self, i, mp, reason=None, counter=0):
+        real = amp.BoxDispatcher(None)
+        return self.make(amp.BoxDispatcher, **dict(vars(real), _outstandingRequests=mp, _counter=counter,
+                                                   boxSender=self.opaque("sender"), _failAllReason=reason))
+
+    def bounded_inputs(self, tier):
+        return iter(())
+
+
+class SendBoxCommand(_Dispatcher):
+    function = "BoxDispatcher._sendBoxCommand"
+    inputs = dict(counter=Int(0, None), answer=ForkBool(), lost=ForkBool())
+
+    def setup(self, i):
+        mp = None if i.lost else TagMap("pending")
+        reason = Failure(ConnectionDone()) if i.lost else None
+        if mp is not None:
+            n = z3.Int("c31!inv")
+            # invariant of the dispatcher: no pending entry carries a tag that is yet to be issued
+            ctx().assume(z3.ForAll([n], z3.Implies(n > core.num_term(i.counter), mp.arr[n] == 0)))
+        d = self.dispatcher(i, mp, reason, i.counter)
+        box = self.opaque("box")
+        return dict(self=d, args=[b"cmd", box, i.answer], objs=dict(d=d), ghost=dict(map=mp, box=box, reason=reason))
+
+    raises = ()
+
+    def _sent(S):
+        sets, sends = ev(S, "box.__setitem__"), ev(S, "box._sendTo")
+        if S.i.lost:
+            return len(sets) == 0 and len(sends) == 0
+        want = [(amp.COMMAND, b"cmd")] + ([(amp.ASK, None)] if S.i.answer else [])
+        if len(sends) != 1 or len(sets) != len(want) or S.trace.index(sends[0]) < max(S.trace.index(e) for e in sets):
+            return False
+        ok = band(sets[0].args[0] == amp.COMMAND, sets[0].args[1] == b"cmd", sends[0].args[0] is S.new.d.boxSender)
+        if S.i.answer:
+            ok = band(ok, sets[1].args[0] == amp.ASK, veq(sets[1].args[1], core.SSeq(HEX(core.num_term(S.i.counter) + 1), "bytes")))
+        return ok
+
+    def _entry(S):
+        stores = ev(S, "map.store")
+        if S.i.lost:
+            return band(len(stores) == 0, is_deferred(S.result) if S.i.answer else S.result is None)
+        m = S.ghost["map"]
+        if not S.i.answer:
+            return band(len(stores) == 0, S.result is None, m.arr is m.arr0)
+        if len(stores) != 1:
+            return False
+        k, occupied, obj = stores[0].args
+        n = z3.Int("c31!n")
+        rid = [r for r, o in m.stored.items() if o is obj]
+        if len(rid) != 1:
+            return False
+        return band(obj is S.result, is_deferred(obj), fld(obj, "called") is False,
+                    core.mk_bool(z3.Not(occupied)),  # no pending request's entry was replaced
+                    core.mk_bool(k == core.num_term(S.i.counter) + 1),
+                    core.mk_bool(z3.ForAll([n], m.arr[n] == z3.If(n == k, rid[0], m.arr0[n]))))
+
+    def _counter(S):
+        if S.i.lost:
+            return veq(S.new.d._counter, S.i.counter)
+        m = S.ghost["map"]
+        n = z3.Int("c31!n2")
+        return band(veq(S.new.d._counter, S.i.counter + 1),
+                    core.mk_bool(z3.ForAll([n], z3.Implies(n > core.num_term(S.i.counter) + 1, m.arr[n] == 0))))
+
+    def _refused(S):
+        if not S.i.lost or not S.i.answer:
+            return None
+        r = S.result
+        return band(is_deferred(r), fld(r, "called") is True, fld(r, "result") is S.ghost["reason"])
+
+    ensures = dict(box_tagged_and_sent_exactly_once=_sent, exactly_one_new_entry_and_no_other_touched=_entry,
+                   tag_counter_advances_and_invariant_kept=_counter, after_loss_fails_at_once_with_the_reason=_refused)
+    canaries = [("tag = self._nextTag()", "tag = b\"%x\" % (self._counter,)", "exactly_one_new_entry_and_no_other_touched"),
+                ("if self._failAllReason is not None:", "if self._outstandingRequests is None and False:", "!verify"),
+                ("box._sendTo(self.boxSender)", "pass", "box_tagged_and_sent_exactly_once")]
+
+
+class AnswerReceived(_Dispatcher):
+    function = "BoxDispatcher._answerReceived"
+    calls = DEFERRED_CALLS
+    inputs = dict(k=Int(0, None))
+    KEY = amp.ANSWER
+
+    def setup(self, i):
+        mp = TagMap("pending")
+        d = self.dispatcher(i, mp)
+        box = self.box(i)
+        return dict(self=d, args=[box], objs=dict(d=d), ghost=dict(map=mp, box=box))
+
+    def box(self, i):
+        return {self.KEY: core.SSeq(HEX(core.num_term(i.k)), "bytes")}
+
+    raises = {KeyError: lambda S: core.mk_bool(S.ghost["map"].arr0[core.num_term(S.i.k)] == 0)}
+
+    def _fired(S):
+        if S.exc is not None:
+            return None
+        m = S.ghost["map"]
+        cb, eb, ae = ev(S, "Deferred.callback"), ev(S, "Deferred.errback"), ev(S, "Deferred.addErrback")
+        if len(cb) != 1 or eb or len(ae) != 1 or S.trace.index(ae[0]) > S.trace.index(cb[0]):
+            return False
+        k = core.num_term(S.i.k)
+        n = z3.Int("c31!n")
+        at_call = cb[0].snap["arr"]
+        return band(core.mk_bool(cb[0].target.term == m.arr0[k]), cb[0].args[0] is S.ghost["box"],
+                    core.mk_bool(ae[0].target.term == m.arr0[k]),
+                    # at the moment the application's callback runs, the entry (and only it) is already gone
+                    core.mk_bool(z3.ForAll([n], at_call[n] == z3.If(n == k, 0, m.arr0[n]))))
+
+    ensures = dict(own_deferred_fired_once_with_this_box_after_its_entry_was_removed=_fired,
+                   only_that_entry_removed=lambda S: None if S.exc else removed_only(S, core.num_term(S.i.k)))
+    canaries = [("question = self._outstandingRequests.pop(box[ANSWER])", "question = self._outstandingRequests[box[ANSWER]]", "only_that_entry_removed"),
+                ("question.callback(box)", "pass", "own_deferred_fired_once_with_this_box_after_its_entry_was_removed")]
+
+
+class ErrorReceived(AnswerReceived):
+    function = "BoxDispatcher._errorReceived"
+    KEY = amp.ERROR
+    calls = dict(DEFERRED_CALLS, Failure="native")
+    inputs = dict(k=Int(0, None), code=OneOf(amp.UNHANDLED_ERROR_CODE, amp.UNKNOWN_ERROR_CODE, b"APP_ERROR"),
+                  text=ForkBool())
+
+    def box(self, i):
+        desc = "described" if i.text else b"described"
+        return {self.KEY: core.SSeq(HEX(core.num_term(i.k)), "bytes"), amp.ERROR_CODE: i.code, amp.ERROR_DESCRIPTION: desc}
+
+    def _failed(S):
+        if S.exc is not None:
+            return None
+        m = S.ghost["map"]
+        cb, eb, ae = ev(S, "Deferred.callback"), ev(S, "Deferred.errback"), ev(S, "Deferred.addErrback")
+        if len(eb) != 1 or cb or len(ae) != 1 or S.trace.index(ae[0]) > S.trace.index(eb[0]):
+            return False
+        k = core.num_term(S.i.k)
+        n = z3.Int("c31!n")
+        f = eb[0].args[0]
+        if not isinstance(f, Failure):
+            return False
+        want = amp.UnhandledCommand if S.i.code == amp.UNHANDLED_ERROR_CODE else amp.RemoteAmpError
+        described = True if want is amp.UnhandledCommand else (f.value.errorCode == S.i.code and f.value.description == "described")
+        return band(core.mk_bool(eb[0].target.term == m.arr0[k]), type(f.value) is want, described,
+                    core.mk_bool(z3.ForAll([n], eb[0].snap["arr"][n] == z3.If(n == k, 0, m.arr0[n]))))
+
+    ensures = dict(own_deferred_failed_once_with_the_error_the_box_describes=_failed,
+                   only_that_entry_removed=lambda S: None if S.exc else removed_only(S, core.num_term(S.i.k)))
+    canaries = [("question = self._outstandingRequests.pop(box[ERROR])", "question = self._outstandingRequests[box[ERROR]]", "only_that_entry_removed"),
+                ("if errorCode in PROTOCOL_ERRORS:", "if False:", "own_deferred_failed_once_with_the_error_the_box_describes")]
+
+
+def entry_errback(I, ref, reason, *a, **kw):
+    """errback on one pending Deferred during failAllOutgoing: counted; must be the next entry, with the reason; and a
+    callRemote made from inside it must already be refused"""
+    c = ctx()
+    g = c.ghost
+    k = g["notified"]
+    d = g["$objs"]["d"]
+    c.oblige("%s/callout/next-pending-deferred-gets-the-reason" % g["$contract"].name,
+             band(veq(ref, SRef(g["entries"][k].term, "Deferred")), reason is g["reason"]), "callout")
+    c.oblige("%s/callout/new-calls-already-refused-while-pending-ones-fail" % g["$contract"].name,
+             band(d._fields.get("_failAllReason") is g["reason"], d._fields.get("_outstandingRequests") is None), "callout")
+    g["notified"] = k + 1
+    c.emit("Deferred.errback", ref, (reason,))
+
+
+class FailAllOutgoing(_Dispatcher):
+    function = "BoxDispatcher.failAllOutgoing"
+    calls = {"Deferred.errback": entry_errback,
+             "unpack:Entry": lambda I, ref: (core.SSeq(HEX(z3.Int("c31!tagof") + 0), "bytes"), SRef(ref.term, "Deferred"))}
+    inputs = dict(entries=RefList("Entry"))
+    loops = {"BoxDispatcher.failAllOutgoing#0": LoopSpec(inv=lambda v: v.notified == v._i, ghost=("notified",))}
+
+    def setup(self, i):
+        mp = TagMap("pending", entries=i.entries)
+        d = self.dispatcher(i, mp)
+        reason = Failure(ConnectionDone())
+        return dict(self=d, args=[reason], objs=dict(d=d), ghost=dict(map=mp, notified=0, entries=i.entries, reason=reason))
+
+    raises = ()
+    ensures = dict(every_pending_deferred_gets_the_reason_once=lambda S: S.ghost["notified"] == L(S.i.entries),
+                   refuses_new_calls_afterwards=lambda S: band(S.new.d._failAllReason is S.ghost["reason"],
+                                                               S.new.d._outstandingRequests is None))
+    canaries = [("for key, value in OR:", "for key, value in OR[:1]:", "every_pending_deferred_gets_the_reason_once")]
+
+
+def handler_event(name):
+    def h(I, *args):
+        ctx().emit(name, None, args[-1:])
+    return h
+
+
+class AmpBoxReceived(_Dispatcher):
+    function = "BoxDispatcher.ampBoxReceived"
+    summaries = {"BoxDispatcher._answerReceived": handler_event("answer"), "BoxDispatcher._errorReceived": handler_event("error"),
+                 "BoxDispatcher._commandReceived": handler_event("command")}
+    inputs = dict(a=ForkBool(), e=ForkBool(), c=ForkBool())
+
+    def setup(self, i):
+        d = self.dispatcher(i, TagMap("pending"))
+        box = amp.AmpBox()
+        for flag, key in ((i.a, amp.ANSWER), (i.e, amp.ERROR), (i.c, amp.COMMAND)):
+            if flag:
+                box[key] = b"1"
+        return dict(self=d, args=[box], objs=dict(d=d), ghost=dict(box=box))
+
+    raises = {amp.NoEmptyBoxes: lambda S: not (S.i.a or S.i.e or S.i.c)}
+
+    def _one(S):
+        got = [e.name for e in S.trace if e.name in ("answer", "error", "command")]
+        want = ["answer"] if S.i.a else ["error"] if S.i.e else ["command"] if S.i.c else []
+        return got == want and all(e.args[0] is S.ghost["box"] for e in S.trace if e.name in want)
+
+    ensures = dict(exactly_one_handler_answer_before_error_before_command=_one)
+    canaries = [("elif ERROR in box:", "elif ERROR in box and COMMAND not in box:", "exactly_one_handler_answer_before_error_before_command")]
+
+
+class Undeclared(Exception):
+    """an exception the command does not declare"""
+
+
+def responder_outcome(I, *args):
+    """dispatchCommand as seen by _commandReceived: a Deferred that has fired with the responder's answer box, with a
+    declared error (RemoteAmpError: fatal or not, text or bytes description) or with anything else"""
+    g = ctx().ghost
+    kind = g["outcome"]
+    ctx().emit("dispatchCommand", None, args[-1:])
+    if kind == "answer":
+        return defer.succeed(g["answer"])
+    if kind == "undeclared":
+        return defer.fail(Failure(Undeclared("boom")))
+    err = amp.RemoteAmpError(b"DECLARED", "why" if kind.endswith("text") else b"why", fatal=kind.startswith("fatal"))
+    return defer.fail(Failure(err))
+
+
+def sent_box(I, box, proto):
+    """AmpBox._sendTo / QuitBox._sendTo: recorded with a copy of the box as it is at that moment"""
+    ctx().emit("sendTo", box, (proto, dict(box), type(box)))
+
+
+sent_box.wants_receiver = True
+
+
+class CommandReceived(_Dispatcher):
+    """the answer / error box carries the question's own tag; undeclared errors become UNKNOWN and close the connection"""
+    function = "BoxDispatcher._commandReceived"
+    summaries = {"BoxDispatcher.dispatchCommand": responder_outcome}
+    calls = {"Failure": "native", "AmpBox": "native", "QuitBox": "native", "AmpBox._sendTo": sent_box, "QuitBox._sendTo": sent_box,
+             "Logger.failure": lambda I, *a, **kw: ctx().emit("log.failure", None, ())}
+    inputs = dict(ask=ForkBool(), tag=Bytes(alphabet=b"1a", small_len=2),
+                  outcome=OneOf("answer", "declared-text", "declared-bytes", "fatal-text", "undeclared"))
+
+    def setup(self, i):
+        d = self.dispatcher(i, TagMap("pending"))
+        box = amp.AmpBox({amp.COMMAND: b"cmd"})
+        if i.ask:
+            box[amp.ASK] = i.tag
+        answer = amp.AmpBox({b"result": b"42"})
+        return dict(self=d, args=[box], objs=dict(d=d), ghost=dict(box=box, outcome=i.outcome, answer=answer))
+
+    raises = ()
+
+    def _reply(S):
+        sent = ev(S, "sendTo")
+        unhandled = ev(S, "sender.unhandledError")
+        if not S.i.ask:
+            # no answer wanted: nothing goes back; a failure is reported to the box sender
+            return len(sent) == 0 and len(unhandled) == (0 if S.i.outcome == "answer" else 1)
+        if len(sent) != 1 or unhandled:
+            return False
+        proto, content, kind = sent[0].args
+        if proto is not S.new.d.boxSender:
+            return False
+        if S.i.outcome == "answer":
+            return band(sent[0].target is S.ghost["answer"], veq(content.get(amp.ANSWER), S.i.tag), amp.ERROR not in content,
+                        content.get(b"result") == b"42")
+        if S.i.outcome == "undeclared":
+            return band(kind is amp.QuitBox, veq(content.get(amp.ERROR), S.i.tag), amp.ANSWER not in content,
+                        content.get(amp.ERROR_CODE) == amp.UNKNOWN_ERROR_CODE, content.get(amp.ERROR_DESCRIPTION) == b"Unknown Error",
+                        len(ev(S, "log.failure")) == 1)
+        return band(kind is (amp.QuitBox if S.i.outcome.startswith("fatal") else amp.AmpBox), veq(content.get(amp.ERROR), S.i.tag),
+                    amp.ANSWER not in content, content.get(amp.ERROR_CODE) == b"DECLARED", content.get(amp.ERROR_DESCRIPTION) == b"why")
+
+    ensures = dict(one_reply_carrying_the_questions_own_tag=_reply)
+    canaries = [("answerBox[ANSWER] = box[ASK]", "answerBox[ANSWER] = box[COMMAND]", "one_reply_carrying_the_questions_own_tag"),
+                ("errorBox[ERROR] = box[ASK]", "errorBox[ERROR] = code", "one_reply_carrying_the_questions_own_tag"),
+                ("code = UNKNOWN_ERROR_CODE", "code = UNHANDLED_ERROR_CODE", "one_reply_carrying_the_questions_own_tag")]
+
+
+CONTRACTS = [SendBoxCommand, AnswerReceived, ErrorReceived, FailAllOutgoing, AmpBoxReceived, CommandReceived]
 BOUNDED = bounded("C31")
 _SCOPE = ('two real amp.AMP peers over an in-memory byte pipe with a step scheduler: 6 scripts cut at every byte of every delivery with 6 connection-loss modes, every schedule of length <= 4 over a 13-step alphabet (calls from both sides, whole / 9-byte deliveries, firing parked responders, loss of either side), 3000 seeded random schedules of 8-60 steps; oracle: a message-level model written from the statement plus an independent box-framing reader (every callRemote Deferred fires exactly once with its own answer / error / the loss reason; calls after loss fail at once)')
-NOTES = dict(explanation=_SCOPE, not_covered=["deductive contracts on the anchored functions (not built)"])
+NOTES = dict(explanation="BoxDispatcher's request table proved for an arbitrary map of pending requests; whole peers bounded: " + _SCOPE,
+             not_covered=["Command._doCommand / responder wrapping (argument parsing, the caller-side mapping of undeclared error codes "
+                          "to UnknownRemoteError), responders that answer later (_commandReceived is proved for a responder whose "
+                          "Deferred has fired; a later firing runs the same callbacks, C01), BinaryBoxProtocol framing (C30), "
+                          "ProtocolSwitchCommand: bounded tier only"])
 MANIFEST = dict(
-    category="exploration",
-    text="Bounded stand-in only, on the real code: " + _SCOPE + ".",
-    note=EXPLORATION_NOTE,
-    technique="bounded exhaustive evaluation of an executable contract on the real code (stand-in; not proved)",
+    category="proof",
+    text="BoxDispatcher is proved, for an arbitrary table of pending requests (an SMT array) and an arbitrary tag counter: "
+         "_sendBoxCommand issues a tag that no pending request carries (invariant: no entry above the counter, kept), tags and "
+         "sends the box exactly once, adds exactly one entry and touches no other, and returns a new unfired Deferred -- or, "
+         "after failAllOutgoing, sends nothing and returns a Deferred that has already failed with the loss reason; "
+         "_answerReceived / _errorReceived fire exactly the Deferred stored under the box's tag, once, with this box / with "
+         "the error the box describes (UnhandledCommand for the protocol's own code, RemoteAmpError otherwise), after "
+         "removing exactly that entry (KeyError exactly when there is none); failAllOutgoing gives every pending Deferred "
+         "the reason exactly once (inductive over any number of entries) and already refuses new calls while it does so; "
+         "ampBoxReceived dispatches to exactly one handler; _commandReceived sends back exactly one box carrying the "
+         "question's own tag -- the responder's answer, the declared error's code and description (QuitBox if fatal), or "
+         "UNKNOWN / 'Unknown Error' in a QuitBox, logged, for an undeclared error -- and nothing when no answer was asked "
+         "for.  What a Deferred then does is C01/C03.  Whole peers, responders, "
+         "argument parsing and framing are exercised in the bounded tier only: " + _SCOPE + ".",
+    note="Trusted: pyvc, SMT solvers, `%x` injective, dict-as-array model, pending Deferreds as abstract references.  Everything else: bounded, never counted as proved.",
+    technique="contract-based deductive verification (symbolic execution over an SMT-array model of the request table, recorded call-outs with state snapshots, inductive loop) + bounded exhaustive schedules of two real peers",
 )
